@@ -610,8 +610,8 @@ func (m *c14) hookOps() {
 	// ---- operands SOLVED FOR a chosen result or intermediate value
 	// (a) 64-byte reductions x = q*L + r with the residue r chosen (0, 1, the top of the range [2^252, L), seeded there) and
 	//     the quotient q chosen (0, 1, the largest that keeps x below 2^512, seeded large ones)
-	if c.Next() {
-		r := c.CaseRng()
+	{
+		r := c.Rng("chosen-residues") // the same lists in every worker; the residues are then spread over cases
 		L := ref.EdL
 		two252 := new(big.Int).Lsh(big.NewInt(1), 252)
 		qmax := new(big.Int).Div(new(big.Int).Sub(new(big.Int).Lsh(big.NewInt(1), 512), big.NewInt(1)), L)
@@ -621,43 +621,54 @@ func (m *c14) hookOps() {
 			quotients = append(quotients, big.NewInt(v), new(big.Int).Sub(qmax, big.NewInt(v)))
 		}
 		span := new(big.Int).Sub(L, two252)
-		for i := 0; i < c.Pick(40, 4000); i++ {
+		for i := 0; i < c.Pick(40, 600); i++ {
 			x := new(big.Int).SetBytes(r.Bytes(20))
 			residues = append(residues, x.Mod(x, span).Add(x, two252))
 			q := new(big.Int).SetBytes(r.Bytes(33))
 			quotients = append(quotients, q.Mod(q, qmax))
 		}
-		for _, rr := range residues {
-			for qi, q := range quotients {
-				if qi > 8 && (qi+int(rr.Uint64()))%7 != 0 {
-					continue
-				}
-				x := new(big.Int).Add(new(big.Int).Mul(q, L), rr)
-				if x.BitLen() > 512 {
-					continue
-				}
-				in := make([]byte, 64)
-				for i, b := range x.Bytes() {
-					in[len(x.Bytes())-1-i] = b
-				}
-				c.Eval(1)
-				var got []byte
-				pan, pv, _ := core.Guard(func() { got = ed25519.VerifScalarReduce64(in) })
-				if pan || !bytes.Equal(got, ref.EdIntLE(rr)) {
-					c.Violation("hook:reduce64:chosen-residue", "SetUniformBytes(q*L + r) is not r "+pv, map[string]any{"input": core.Hex(in), "residue": rr.Text(16), "quotient": q.Text(16), "got": core.Hex(got)})
-					break
-				}
-				// the reduced scalar is then used: multiplication must not panic and must agree with the model
-				pan, pv, _ = core.Guard(func() {
-					if bm := ed25519.VerifScalarBaseMult(got); !bytes.Equal(bm, ref.EdEncode(ref.EdMul(rr, ref.EdB))) {
-						c.Violation("hook:reduce64:chosen-residue:use", "a scalar reduced from q*L + r multiplies the base point to another point than [r]B", map[string]any{"input": core.Hex(in)})
+		for lo := 0; lo < len(residues); lo += 4 {
+			// four residues per case
+			if !c.Next() {
+				continue
+			}
+			for _, rr := range residues[lo:min(lo+4, len(residues))] {
+				for qi, q := range quotients {
+					if qi > 8 && (qi+int(rr.Uint64()))%7 != 0 {
+						continue
 					}
-				})
-				if pan {
-					c.Violation("hook:reduce64:chosen-residue:use-panic", "using a scalar reduced from q*L + r panicked: "+pv, map[string]any{"input": core.Hex(in)})
-					break
+					x := new(big.Int).Add(new(big.Int).Mul(q, L), rr)
+					if x.BitLen() > 512 {
+						continue
+					}
+					in := make([]byte, 64)
+					for i, b := range x.Bytes() {
+						in[len(x.Bytes())-1-i] = b
+					}
+					c.Eval(1)
+					var got []byte
+					pan, pv, _ := core.Guard(func() { got = ed25519.VerifScalarReduce64(in) })
+					if pan || !bytes.Equal(got, ref.EdIntLE(rr)) {
+						c.Violation("hook:reduce64:chosen-residue", "SetUniformBytes(q*L + r) is not r "+pv, map[string]any{"input": core.Hex(in), "residue": rr.Text(16), "quotient": q.Text(16), "got": core.Hex(got)})
+						break
+					}
+					// the reduced scalar is then used: multiplication must not panic and must agree with the model (the model's
+					// scalar multiplication costs some 20 ms: the first three quotients of every residue)
+					if qi > 2 {
+						c.Class("hook_reduce_chosen_residue")
+						continue
+					}
+					pan, pv, _ = core.Guard(func() {
+						if bm := ed25519.VerifScalarBaseMult(got); !bytes.Equal(bm, ref.EdEncode(ref.EdMul(rr, ref.EdB))) {
+							c.Violation("hook:reduce64:chosen-residue:use", "a scalar reduced from q*L + r multiplies the base point to another point than [r]B", map[string]any{"input": core.Hex(in)})
+						}
+					})
+					if pan {
+						c.Violation("hook:reduce64:chosen-residue:use-panic", "using a scalar reduced from q*L + r panicked: "+pv, map[string]any{"input": core.Hex(in)})
+						break
+					}
+					c.Class("hook_reduce_chosen_residue")
 				}
-				c.Class("hook_reduce_chosen_residue")
 			}
 		}
 	}
